@@ -57,11 +57,11 @@ theorem Closed.walkStep (hc : Closed cfg U P) (now : Int) (p : Pool) (c : BCand)
   · simp only [Bool.false_eq_true, if_false]
     by_cases hcond : (c.chk && expireValid cfg p c.single now) = true
     · simp only [hcond, if_true]; exact hc.push _ _ _ hUc.1 h
-    · simp only [hcond, if_false]; exact h
+    · simp only [hcond]; exact h
   · simp only [if_true]
     by_cases hcond : (c.chk && expireValid cfg p c.merged now) = true
     · simp only [hcond, if_true]; exact hc.push _ _ _ hUc.2 h
-    · simp only [hcond, if_false]; exact h
+    · simp only [hcond]; exact h
 
 theorem Closed.delBlockWalk (hc : Closed cfg U P) (now : Int) : ∀ (fuel : Nat) (cs : List BCand) (p : Pool),
     (∀ c ∈ cs, U c.single ∧ U c.merged) → P p → P (delBlockWalk cfg now fuel cs p) := by
